@@ -612,6 +612,41 @@ def cluster(kinds, layout='line', d=3.0, level='exposed', offset=(0, 0, 0)):
     return s.renumber_serials()
 
 
+def bridge_points(frag, atom_a, d_a, atom_b, d_b, clear=2.7, step=0.25, limit=3):
+    """Lattice points within d_a of atom_a AND within d_b of atom_b that keep `clear` A from every atom of frag."""
+    pa, pb = atom_a.xyz, atom_b.xyz
+    pts = []
+    n = int((max(d_a, d_b) + 1.0) / step)
+    heavy = [a.xyz for a in frag.atoms]
+    for i, j, k in itertools.product(range(-n, n + 1), repeat=3):
+        p = (pa[0] + i * step, pa[1] + j * step, pa[2] + k * step)
+        if sum((p[m] - pa[m]) ** 2 for m in range(3)) > d_a ** 2 or sum((p[m] - pb[m]) ** 2 for m in range(3)) > d_b ** 2:
+            continue
+        if any(sum((p[m] - h[m]) ** 2 for m in range(3)) < clear ** 2 for h in heavy):
+            continue
+        pts.append(p)
+    pts.sort(key=lambda p: sum((p[m] - pa[m]) ** 2 + (p[m] - pb[m]) ** 2 for m in range(3)))
+    return pts[:limit]
+
+
+def backbone_bridge(lig_kind, res_kind='ALA', which=0, level='exposed', offset=(0, 0, 0)):
+    """A ligand whose interaction atom is within hydrogen-bond range of the amide N AND of the carbonyl O of one residue."""
+    frag = kind_struct('SER' if res_kind == 'SER' else 'THR', 'A', 1) if res_kind != 'ALA' else kind_struct('SER', 'A', 1)
+    keys = list(frag.residues().keys())
+    mid = keys[1][:3]
+    n_at = [a for a in frag.atoms if a.reskey == mid and a.name == 'N'][0]
+    o_at = [a for a in frag.atoms if a.reskey == mid and a.name == 'O'][0]
+    pts = bridge_points(frag, n_at, 3.3, o_at, 3.9)
+    if len(pts) <= which:
+        raise Skip('no-bridge-point')
+    lig = kind_struct(lig_kind, 'B', 11)
+    u = _sub(list(pts[which]), centroid(frag.atoms))
+    lig = dock_at(lig, kind_atom(lig_kind, lig), list(pts[which]), u)
+    s = with_burial([frag, lig], level)
+    s.translate(offset)
+    return s.renumber_serials()
+
+
 class Skip(Exception):
     """Raised by generators for inputs that are outside a scope (clash, tie); counted, never judged."""
 
